@@ -305,7 +305,7 @@ int main(int argc, char **argv) {
             })));
             return c;
         });
-        ok = run_cases(a, ev, "c13-rounds", a.n(30000, 400000), 100, gen, run);
+        ok = run_cases(a, ev, "c13-rounds", a.n(160000, 1000000), 100, gen, run);
     }
 #endif
     ev.write(a.out);
